@@ -1,0 +1,47 @@
+//go:build verif
+// +build verif
+
+// Verification hook (C16): in-package exports of the VRF qualification rule so that the
+// property harness can evaluate validateProve/calQn directly. Compiled only with -tags verif.
+package logical
+
+import (
+	"math/big"
+
+	"com.tuntun.rangers/node/src/consensus/vrf"
+)
+
+type verifC16NopLogger struct{}
+
+func (verifC16NopLogger) Tracef(format string, params ...interface{})       {}
+func (verifC16NopLogger) Debugf(format string, params ...interface{})       {}
+func (verifC16NopLogger) Infof(format string, params ...interface{})        {}
+func (verifC16NopLogger) Warnf(format string, params ...interface{}) error  { return nil }
+func (verifC16NopLogger) Errorf(format string, params ...interface{}) error { return nil }
+func (verifC16NopLogger) Debug(v ...interface{})                            {}
+func (verifC16NopLogger) Info(v ...interface{})                             {}
+func (verifC16NopLogger) Warn(v ...interface{}) error                       { return nil }
+func (verifC16NopLogger) Error(v ...interface{}) error                      { return nil }
+
+// VerifVRFQuietLog installs a no-op logger for validateProve when InitConsensus was not called.
+func VerifVRFQuietLog() {
+	if stdLogger == nil {
+		stdLogger = verifC16NopLogger{}
+	}
+}
+
+// VerifVRFValidateProve is validateProve.
+func VerifVRFValidateProve(prove vrf.VRFProve, height, workingMiners, totalStake uint64) (bool, uint64) {
+	VerifVRFQuietLog()
+	return validateProve(prove, height, workingMiners, totalStake)
+}
+
+// VerifVRFCalQn is calQn (note: it clamps stakeRatio in place, as the original does).
+func VerifVRFCalQn(vrfValueRatio, stakeRatio *big.Rat) uint64 {
+	return calQn(vrfValueRatio, stakeRatio)
+}
+
+// VerifVRFGenVrfMsg is genVrfMsg.
+func VerifVRFGenVrfMsg(random []byte, delta int) []byte {
+	return genVrfMsg(random, delta)
+}
